@@ -174,6 +174,45 @@ def _rand_tok(r, toks, kinds):
     return {"k": k, "t": k}
 
 
+def sentence_edits(cases, seed, per_sentence=None):
+    """every source at edit distance 1 (one token replaced, inserted or deleted, over the whole token alphabet) from every enumerated
+    sentence: a refused token *inside* an otherwise complete program, which the viable-prefix enumeration cannot reach.
+    Token dicts for the decider; duplicates removed."""
+    r = random.Random(seed)
+    alpha = ([{"k": "id", "t": x} for x in ("a", "f", "g")] + [{"k": "int", "t": "1"}, {"k": "int", "t": "2147483647"}] +
+             [{"k": k, "t": k} for k in sorted(SPELL)])
+
+    def tok(t):
+        if t in ("a", "f", "g"):
+            return {"k": "id", "t": t}
+        if t == "1":
+            return {"k": "int", "t": "1"}
+        if t == "big":
+            return {"k": "int", "t": "2147483647"}
+        return {"k": t, "t": t}
+    seen, out = set(), []
+    for c in cases:
+        if not c["acc"] or c["dup"]:
+            continue
+        toks = [tok(t) for t in _seq(c["toks"])]
+        eds = []
+        for i in range(len(toks) + 1):
+            for a in alpha:
+                eds.append(toks[:i] + [a] + toks[i:])
+                if i < len(toks):
+                    eds.append(toks[:i] + [a] + toks[i + 1:])
+            if i < len(toks):
+                eds.append(toks[:i] + toks[i + 1:])
+        if per_sentence and len(eds) > per_sentence:
+            eds = r.sample(eds, per_sentence)
+        for e in eds:
+            key = " ".join(t["k"] + ":" + t["t"] for t in e)
+            if key not in seen and e:
+                seen.add(key)
+                out.append(e)
+    return out
+
+
 def decide(chk, lists, name="decide"):
     d = rundir(chk.pid, name + "_in")
     cp = os.path.join(d, "cases.json")
